@@ -221,6 +221,11 @@ func runC19(c *Ctx, r *Report, tier string) {
 			for _, k := range keys {
 				read[k] = append(read[k], n)
 			}
+		} else if elems, ok := constArrayElems(c, call.Call.Args[1]); ok {
+			// the key ranges over a local table of constants
+			for _, e := range elems {
+				read[strings.Trim(e, `"`)] = append(read[strings.Trim(e, `"`)], n)
+			}
 		} else {
 			r.Undec("KEYS", c.fname(fn), "tag key argument", c.ipos(in), "non-constant key "+c.term(call.Call.Args[1]))
 		}
